@@ -15,7 +15,7 @@ def riem_projection(E, s):
         # base point with sparse cores (scaled partial permutations per slice, symbolic positive magnitudes): ranks up to 3 stay tractable
         x, xc = so_tt_input(E, 'x', N, Rx, s['patterns'], M)
     else:
-        x, xc = tt_input(E, 'x', N, Rx, 'float64', M)
+        x, xc = tt_input(E, 'x', N, Rx, 'float64', M, via=s.get('via'))
     z, zc = tt_input(E, 'z', N, s['Rz'], 'float64', M)
     P = tt.manifold.riemannian_projection
     xd, zd = dense(E, xc), dense(E, zc)
@@ -63,7 +63,7 @@ def riem_gradient(E, s):
     if s.get('patterns'):
         x, xc = so_tt_input(E, 'x', N, Rx, s['patterns'], M)
     else:
-        x, xc = tt_input(E, 'x', N, Rx, 'float64', M)
+        x, xc = tt_input(E, 'x', N, Rx, 'float64', M, via=s.get('via'))
     t, tc = tt_input(E, 't', N, [1] * (len(N) + 1), 'float64', M)
     xd = dense(E, xc)
     fk = s['f']
